@@ -318,6 +318,10 @@ func (acl *ACL) AuthorizeConnection(conn *net.Conn, cmd []string, command intern
 		if err != nil {
 			return err
 		}
+		// The keys and channels that count are the ones of the sub-command.
+		channels = keys.Channels
+		readKeys = keys.ReadKeys
+		writeKeys = keys.WriteKeys
 	}
 
 	// Skip ack
